@@ -57,6 +57,7 @@ def universe(thorough):
         ('[A(0),A(1)]', lambda: [A(x=0), A(x=1)]), ('[A(1),A(0)]', lambda: [A(x=1), A(x=0)]),
         ("{'k':[A(0)]}", lambda: {'k': [A(x=0)]}), ('[True]', lambda: [True]), ('[1.0]', lambda: [1.0]),
     ]
+  u += dynamic_keys() + mutated() + special_objects()
   if thorough:
     u += generated()
   seen = set()
@@ -66,6 +67,97 @@ def universe(thorough):
       seen.add(n)
       out.append((n, m))
   return out
+
+
+def dynamic_keys():
+  """Values with free-form keys inserted in different orders (schema-bound dicts / objects iterate them as inserted)."""
+  K = fx.EqKw
+  spec = lambda: pg.typing.Dict([('x', pg.typing.Any(default=None)), (pg.typing.StrKey(), pg.typing.Any())])
+  return [
+      ('Kw(x=1,p=1,q=2)', lambda: K(x=1, p=1, q=2)), ('Kw(x=1,q=2,p=1)', lambda: K(x=1, q=2, p=1)),
+      ('Kw(x=1,p=1,q=3)', lambda: K(x=1, p=1, q=3)), ('Kw(x=1,q=1,p=2)', lambda: K(x=1, q=1, p=2)),
+      ('Kw(x=1,p=1)', lambda: K(x=1, p=1)),
+      ('typed{x=1,p=1,q=2}', lambda: pg.Dict(dict(x=1, p=1, q=2), value_spec=spec())),
+      ('typed{x=1,q=2,p=1}', lambda: pg.Dict(dict(x=1, q=2, p=1), value_spec=spec())),
+      ('typed{x=1,q=1,p=2}', lambda: pg.Dict(dict(x=1, q=1, p=2), value_spec=spec())),
+      ('[Kw(p=1,q=2)]', lambda: [K(p=1, q=2)]), ('[Kw(q=2,p=1)]', lambda: [K(q=2, p=1)]),
+  ]
+
+
+def _twin_classes():
+  def make():
+    @pg.members([('x', pg.typing.Any(default=None))])
+    class Twin(pg.Object):
+      pass
+    return Twin
+  return make(), make()
+
+
+TWIN1, TWIN2 = _twin_classes()       # two distinct classes with one qualified name (a class factory / same name in two modules)
+_REF_TARGETS = [pg.Dict(v=1), pg.Dict(v=1), pg.Dict(v=2)]
+
+
+def special_objects():
+  t = _REF_TARGETS
+  return [
+      ('Twin1(1)', lambda: TWIN1(x=1)), ('Twin2(1)', lambda: TWIN2(x=1)), ('Twin2(2)', lambda: TWIN2(x=2)), ('Twin1(2)', lambda: TWIN1(x=2)),
+      ('Ref(t0)', lambda: pg.Ref(t[0])), ('Ref(t0)#2', lambda: pg.Ref(t[0])), ('Ref(t1==t0)', lambda: pg.Ref(t[1])), ('Ref(t2)', lambda: pg.Ref(t[2])),
+      ('A(Ref(t0))', lambda: fx.EqA(x=pg.Ref(t[0]))), ('A(Ref(t1))', lambda: fx.EqA(x=pg.Ref(t[1]))),
+  ]
+
+
+def mutated():
+  """Values reached by mutation after they were hashed / compared once (every kind of write, notifying or not).
+  Their plainly constructed twins are in the universe too, so eq => equal hash and the order laws relate the two."""
+  A, S = fx.EqA, fx.EqS
+
+  def touch(v):
+    pg.hash(v)
+    try:
+      hash(v)
+    except TypeError:
+      pass
+    pg.eq(v, v)
+    return v
+
+  def quiet(v, fn):
+    touch(v)
+    with pg.notify_on_change(False):
+      fn(v)
+    return v
+
+  def skip(v, **kw):
+    touch(v)
+    v.rebind(skip_notification=True, **kw)
+    return v
+
+  def child_only(v):
+    touch(v)
+    v.x.rebind(x=1, notify_parents=False)
+    return v
+
+  def plainly(v, fn):
+    touch(v)
+    fn(v)
+    return v
+
+  return [
+      ('A(1)', lambda: A(x=1)), ('A(A(1))', lambda: A(x=A(x=1))), ('A([0,1])', lambda: A(x=[0, 1])), ('S(S(1))', lambda: S(x=S(x=1))),
+      ("{'a':1}", lambda: {'a': 1}), ('[0,1]', lambda: [0, 1]), ("{'k':A(1)}", lambda: {'k': A(x=1)}), ('[A(1)]', lambda: [A(x=1)]),
+      ('mut:A(0).x=1', lambda: plainly(A(x=0), lambda v: v.rebind(x=1))),
+      ('mut:A(0).x=1 quiet', lambda: quiet(A(x=0), lambda v: v.rebind(x=1))),
+      ('mut:A(0).x=1 skip', lambda: skip(A(x=0), x=1)),
+      ('mut:S(0).x=1 skip', lambda: skip(S(x=0), x=1)),
+      ('mut:A(A(0)).x.x=1 child-only', lambda: child_only(A(x=A(x=0)))),
+      ('mut:S(S(0)).x.x=1 child-only', lambda: child_only(S(x=S(x=0)))),
+      ('mut:A([0]).x+=[1] quiet', lambda: quiet(A(x=[0]), lambda v: v.x.append(1))),
+      ('mut:A([0]).x+=[1]', lambda: plainly(A(x=[0]), lambda v: v.x.append(1))),
+      ("mut:pg.Dict(a=0).a=1 quiet", lambda: quiet(pg.Dict(a=0), lambda v: v.__setitem__('a', 1))),
+      ('mut:pg.List([0])+[1] quiet', lambda: quiet(pg.List([0]), lambda v: v.append(1))),
+      ("mut:{'k':A(0)}.k.x=1 quiet", lambda: quiet(pg.Dict(k=A(x=0)), lambda v: v.k.rebind(x=1))),
+      ("mut:{'k':A(0)}.k.x=1 child-only", lambda: plainly(pg.Dict(k=A(x=0)), lambda v: v.k.rebind(x=1, notify_parents=False))),
+      ('mut:[A(0)][0].x=1 quiet', lambda: quiet(pg.List([A(x=0)]), lambda v: v[0].rebind(x=1))),
+  ]
 
 
 def generated():
